@@ -63,7 +63,7 @@ func drawActorSpec(l *core.Lane) ActorSpec {
 }
 
 func (s ActorSpec) New(dev *world.Device, name string) *world.Actor {
-	return &world.Actor{Name: name, Dev: dev, R: core.NewSplitMix(s.Seed), Mode: s.Mode, Piece: s.Piece, UsePeek: s.UsePeek, RetErr: s.RetErr, UseByte: s.UseByte}
+	return &world.Actor{Name: name, Dev: dev, R: core.NewSplitMix(s.Seed), Seed: s.Seed, Mode: s.Mode, Piece: s.Piece, UsePeek: s.UsePeek, RetErr: s.RetErr, UseByte: s.UseByte}
 }
 
 func (s ActorSpec) String() string {
